@@ -922,6 +922,37 @@ func init() {
 			setRes(st, in, res)
 			return true
 		},
+		"bytes.Compare": func(ex *Exec, st *State, args []Value, in *ssa.Call, pos token.Pos) bool {
+			a, b := args[0].(SliceV), args[1].(SliceV)
+			if !a.Len.IsConst() || !b.Len.IsConst() || a.Len.Val > 64 || b.Len.Val > 64 {
+				panic("bytes.Compare of slices of symbolic or large length")
+			}
+			// lexicographic: decided at the first differing byte, else by length
+			n := a.Len.Val
+			if b.Len.Val < n {
+				n = b.Len.Val
+			}
+			var res *Term
+			switch {
+			case a.Len.Val < b.Len.Val:
+				res = Const(64, ^uint64(0))
+			case a.Len.Val > b.Len.Val:
+				res = Const(64, 1)
+			default:
+				res = Const(64, 0)
+			}
+			if n > 0 {
+				aa, _ := ex.sliceArr(st, a)
+				ba, _ := ex.sliceArr(st, b)
+				for i := int64(n) - 1; i >= 0; i-- {
+					x := Select(aa.A, Add(a.Off, Const(64, uint64(i))))
+					y := Select(ba.A, Add(b.Off, Const(64, uint64(i))))
+					res = Ite(Ult(x, y), Const(64, ^uint64(0)), Ite(Ult(y, x), Const(64, 1), res))
+				}
+			}
+			setRes(st, in, res)
+			return true
+		},
 		"bytes.Equal": func(ex *Exec, st *State, args []Value, in *ssa.Call, pos token.Pos) bool {
 			a, b := args[0].(SliceV), args[1].(SliceV)
 			if !a.Len.IsConst() && b.Len.IsConst() {
@@ -1259,6 +1290,21 @@ func init() {
 				c = False
 			}
 			setRes(st, in, c)
+			return true
+		},
+		"errors.Is": func(ex *Exec, st *State, args []Value, in *ssa.Call, pos token.Pos) bool {
+			// identity of error values; an error built by fmt.Errorf may wrap anything (%w): imprecise
+			e, t := args[0].(IfaceV), args[1].(IfaceV)
+			if e.V == nil {
+				setRes(st, in, BoolC(t.V == nil))
+				return true
+			}
+			if o, ok := e.V.(OpaqueV); ok && strings.HasPrefix(o.Kind, "err:fmt.Errorf") {
+				st.imprecise = true
+				setRes(st, in, ex.freshVar("errors.is", BoolSort))
+				return true
+			}
+			setRes(st, in, ex.valEq(e, t))
 			return true
 		},
 		"strings.HasPrefix": func(ex *Exec, st *State, args []Value, in *ssa.Call, pos token.Pos) bool {
